@@ -273,7 +273,19 @@ func checkC11(c *Ctx) {
 			c.Fail("C11.R3", pkg+".BearerTokenAuthorizer", "", "constructor not found")
 			continue
 		}
-		for _, fn := range ctor.AnonFuncs {
+		// the authorizer the constructor hands out: the function literal(s) it returns, or the method behind a
+		// method value of a small type
+		authFns := append([]*ssa.Function(nil), ctor.AnonFuncs...)
+		if len(authFns) == 0 {
+			for _, r := range returnsOf(ctor) {
+				if len(r.Results) == 1 {
+					for _, t := range funcValueTargets(r.Results[0], 0) {
+						authFns = append(authFns, unwrapBound(t))
+					}
+				}
+			}
+		}
+		for _, fn := range authFns {
 			fn := p.View(fn) // the comparison loop may live in a helper of the package
 			nB++
 			key := pkg + ".BearerTokenAuthorizer$closure"
